@@ -124,8 +124,10 @@ PROPS = {
                           "runs is at most (#distinct trials) x (max_retries+1), hence N x (R+1) under max_trials = N and |grid| x (R+1) for grid search.",
             "level_note": "Liveness proper is proved for every oracle with a trial budget (Ktm/Live.lean: along every interleaving of workers that finish "
                           "what they are given at most 2*N*(R+1) steps hand out or end a trial, STOPPED is answered to a worker once, and an IDLE answer "
-                          "always points at a worker that has not been told STOPPED and whose next step ends a trial). partial: the same bound with the "
-                          "Hyperband schedule (finite iterations) or the finite grid in the place of max_trials is checked on the implementation by the "
+                          "always points at a worker that has not been told STOPPED and whose next step ends a trial); the finite grid (grid_productive_steps_bounded) "
+                          "and Hyperband's schedule (hyperband_trials_bounded: at most iterations x numBrackets x M trials in every reachable state, by a "
+                          "potential argument over free places of open brackets and brackets still to be opened; hyperband_search_finishes; "
+                          "hyperband_due_promotion_is_found: no early stop while a promotion is due) are instances. The same statements are also checked on the implementation by the "
                           "`liveness` / `hyperband` suites (fair random schedulers incl. all-fail patterns, empty initial spaces, not-tuned "
                           "configurations, trials that report a continuous entry, the process replaced by a fresh one in mid-search, explicit bounds, and a "
                           "count of a finished Hyperband search against its schedule on the trials themselves: iterations x size(b,0) first-round trials "
